@@ -169,6 +169,16 @@ def run_job(job, rec):
             cols = [s64] + [gen_sample(rng, n)[1] for _ in range(ncol - 1)]
             arg = np.stack(cols, axis=1)
             raw = arg.copy()
+            if ncol == 1 and n >= 3 and rng.random() < 0.3:
+                # a square table: as many columns as rows
+                cols = [s64] + [gen_sample(rng, n)[1] for _ in range(n - 1)] if n <= 12 else cols
+                arg = np.stack(cols, axis=1)
+                raw = arg.copy()
+            nest = rng.random()
+            if nest < 0.35:
+                # the same table as a nested sequence (list of rows / tuple of tuples / list of row arrays): a documented Sequence input
+                arg = [[float(v) for v in row] for row in raw] if nest < 0.15 else tuple(tuple(float(v) for v in row) for row in raw) if nest < 0.25 else [row.copy() for row in raw]
+                rec.count("forms:2d_nested_sequence")
         else:
             arg = s64.copy()
             raw = s64.copy()
@@ -182,9 +192,9 @@ def run_job(job, rec):
         if c < 2:
             rec.sample({"n": n, "kind": kind, "form": str(form), "fraction": f, "head": raw.ravel()[:5]})
 
-        before = snapshot(arg) if isinstance(arg, np.ndarray) else list(arg)
+        before = snapshot(arg) if isinstance(arg, np.ndarray) else snapshot(np.asarray(arg, float))
         res = guarded(sample_hdi, arg, f)
-        after = snapshot(arg) if isinstance(arg, np.ndarray) else list(arg)
+        after = snapshot(arg) if isinstance(arg, np.ndarray) else snapshot(np.asarray(arg, float))
         rec.check(before == after, "input-modified", "the caller's sample was modified by the call",
                   {"n": n, "form": str(form)})
 
